@@ -4,6 +4,7 @@
    threads are skipped) and over ALL script assignments [scripts : nat -> list op], i.e. any number
    of threads.  Models: Model.v; contracts as history monitors: Spec.v. *)
 From God Require Import Base.Prelude C18.Conc C18.Spec C18.Model.
+From Coq Require Import Sorting.Permutation.
 From God Require Import C18.ProofsSF C18.ProofsLC C18.ProofsAO C18.ProofsPool C18.ProofsRM C18.ProofsTL C18.ProofsRef.
 
 (* ---------------------------------------------------------------- SingleFlight *)
@@ -147,6 +148,17 @@ Theorem c18_pool_bound : forall limit maxage scripts sched, (0 <= limit)%Z ->
 Proof. exact pool_bound. Qed.
 Print Assumptions c18_pool_bound.
 
+(* resources whose create callback is still running count: live + in progress (+ slots lost to
+   panicked creates) never exceeds the limit; while a thread is inside create there is room for the
+   resource it is making; and at most one create is in progress at a time *)
+Theorem c18_pool_bound_in_progress : forall limit maxage scripts sched, (0 <= limit)%Z ->
+  let s := run (POOL.step limit maxage) sched (POOL.init scripts) in
+  ((POOL.ncreate s - POOL.ndestroy s) + POOL.nleak s <= limit)%Z /\
+  (forall t, POOL.t_pc (POOL.ts s t) = POOL.GCb -> ((POOL.ncreate s - POOL.ndestroy s) + 1 <= limit)%Z) /\
+  (forall t u, POOL.t_pc (POOL.ts s t) = POOL.GCb -> POOL.t_pc (POOL.ts s u) = POOL.GCb -> t = u).
+Proof. exact pool_bound_in_progress. Qed.
+Print Assumptions c18_pool_bound_in_progress.
+
 (* the create/destroy callbacks run under the pool's mutex: no other Get/Put is inside the pool *)
 Theorem c18_pool_mutex : forall limit maxage scripts sched t u, (0 <= limit)%Z ->
   let s := run (POOL.step limit maxage) sched (POOL.init scripts) in
@@ -255,13 +267,31 @@ Theorem c18_rm_panic_safe : forall scripts sched,
 Proof. exact rm_panic_safe. Qed.
 Print Assumptions c18_rm_panic_safe.
 
-(* Close closes every stored resource and empties the table *)
+(* Close closes every stored resource exactly once -- whether or not a resource's own Close() returns
+   an error (RM.close_fails is an arbitrary property of the handle) --, empties the table, and
+   reports an error iff some resource failed *)
 Theorem c18_rm_close_all : forall s t, RM.t_pc (RM.ts s t) = RM.CClose ->
   exists s', RM.step (Thr t) s = Some s' /\ RM.resources s' = [] /\ RM.closed s' = true /\
-             (forall k id, alookup Nat.eqb k (RM.resources s) = Some id -> In id (RM.closedids s')) /\
-             (forall id, In id (map snd (RM.resources s)) -> In (mkev t KEnd 1 id 0 0) (RM.trace s')).
+             RM.closedids s' = map snd (RM.resources s) ++ RM.closedids s /\
+             RM.trace s' = rev (RM.close_events t (RM.resources s)) ++ RM.trace s /\
+             map e_a (RM.close_events t (RM.resources s)) = map snd (RM.resources s) /\
+             RM.t_pc (RM.ts s' t) = RM.CUnlock /\ RM.t_re (RM.ts s' t) = RM.close_err (RM.resources s) /\
+             (forall kv, In kv (RM.resources s) ->
+                In (mkev t KEnd 1 (snd kv) 0 (if RM.close_fails (snd kv) then 1 else 0)) (RM.trace s')).
 Proof. exact rm_close_all. Qed.
 Print Assumptions c18_rm_close_all.
+
+Theorem c18_rm_close_result : forall s t, RM.t_pc (RM.ts s t) = RM.CUnlock ->
+  exists s', RM.step (Thr t) s = Some s' /\ RM.t_res (RM.ts s' t) = (RM.t_re (RM.ts s t), 0) :: RM.t_res (RM.ts s t) /\ RM.writer s' = None.
+Proof. exact rm_close_result. Qed.
+Print Assumptions c18_rm_close_result.
+
+(* ... whatever the order in which the map is traversed *)
+Theorem c18_rm_close_any_order : forall t rs rs', Permutation rs rs' ->
+  Permutation (RM.close_events t rs) (RM.close_events t rs') /\ RM.close_err rs = RM.close_err rs' /\
+  Permutation (map snd rs) (map snd rs').
+Proof. exact rm_close_order. Qed.
+Print Assumptions c18_rm_close_any_order.
 
 (* ---------------------------------------------------------------- SpinLock, OnceGuard, DoneChan, Barrier *)
 (* unless somebody unlocked a lock he did not hold, at most one thread is between Lock and Unlock *)
@@ -325,6 +355,13 @@ Example c18_ref_use_during_callback :
   let scr := fun t => match t with 0 => [mkop 0 0 0 0; mkop 1 0 1 0] | 1 => [mkop 0 0 0 0; mkop 1 0 0 0] | _ => [] end in
   let fin := replay REFL.step REFL.busy 50 [0;1] [Thr 0; Thr 0; Thr 1; Open 1; Thr 1] (REFL.init scr) in
   map (fun t => REFL.t_res (REFL.ts fin t)) [0;1] = [[(1, 0); (0, 0)]; [(0, 0); (1, 0)]].
+Proof. vm_compute. reflexivity. Qed.
+
+(* two stored resources, the first one's Close fails: both are closed, Close reports the error *)
+Example c18_rm_close_with_failing_resource :
+  let scr := fun t => match t with 0 => [mkop 0 1 0 3; mkop 0 2 0 0; mkop 1 0 0 0] | _ => [] end in
+  let fin := replay RM.step RM.busy 80 [0] [Thr 0; Thr 0; Thr 0] (RM.init scr) in
+  (RM.t_res (RM.ts fin 0), RM.closedids fin) = ([(1, 0); (2, 0); (1001, 0)], [2; 1001]).
 Proof. vm_compute. reflexivity. Qed.
 
 Example c18_limit_return_without_borrow :
